@@ -48,9 +48,8 @@ impl SignatureConverter<'_> {
             *span = Span::call_site().located_at(*span);
         }
         let sig = &mut entrait_sig.sig;
-        if let Some(token) = &mut sig.constness {
-            at_call_site(&mut token.span);
-        }
+        // (a trait method cannot be `const`; the function itself stays as it is)
+        sig.constness = None;
         if let Some(token) = &mut sig.asyncness {
             at_call_site(&mut token.span);
         }
